@@ -588,6 +588,26 @@ Definition C07_independent_full : Prop :=
      out_eq (fun x => x < next s \/ next sF <= x) sF (run h sF) /\
      forall x, next s <= x -> x < next sF -> drefs (run h sF) x = drefs sF x).
 
+(* SEPARATION: after a completed Netlist.clone the region of the copy and the region of the original are
+   both closed under every link and share no allocated object; in particular the footprint of the copy -
+   everything reachable from the new netlist through containers, parents, pin-wire joins, outer-pin
+   tables, reference sets and the top instance - consists of objects created by the call *)
+Theorem C07_netlist_clone_regions_separated : forall ops n,
+  let s := run ops init in
+  let sF := fst (fst (clone_netlist s n)) in
+  kind_of s n = Some KNetlist -> Closed s n -> snd (fst (clone_netlist s n)) = None ->
+  Separated (copy_region (next s)) (orig_region (next s) (next sF)) sF.
+Proof. exact netlist_clone_separated. Qed.
+Print Assumptions C07_netlist_clone_regions_separated.
+
+Theorem C07_netlist_clone_footprint_is_new : forall ops n y,
+  let s := run ops init in
+  let sF := fst (fst (clone_netlist s n)) in
+  kind_of s n = Some KNetlist -> Closed s n -> snd (fst (clone_netlist s n)) = None ->
+  footprint sF (snd (clone_netlist s n)) y -> next s <= y.
+Proof. exact netlist_clone_footprint_disjoint. Qed.
+Print Assumptions C07_netlist_clone_footprint_is_new.
+
 Theorem C07_independent : C07_independent_full.
 Proof. exact netlist_clone_independent. Qed.
 Print Assumptions C07_independent.
